@@ -16,13 +16,15 @@ REQUIRED = ["image of a union == sum of images", "point order irrelevant", "zero
 RULE = ("imager configurations as in C04 (all kernel / weight kinds incl. |r|>=0.925), diagrams of 0-30 points, collections of 1-12 "
         "diagrams with empty diagrams at first / middle / last position; ~6% of the cases compare serial with joblib-parallel "
         "transforms (n_jobs in {1,2,3,-1}, loky and threading backends) using a weight callable that sleeps a data-dependent time, "
+        "one case in 131 applies the union / order / collection / sign / total relations to a diagram of 2000-9000 pairs on a grid of up to 160x160 pixels; "
         "so that workers finish out of submission order (completion orders are recorded from the workers' own event log). "
         "non-trivial = collection of >=3 diagrams with >=2 non-empty, or a union of two non-empty diagrams; distinct = digest of "
         "(configuration, diagrams)")
-ASSUMPTIONS = ["equalities between two runs of the same arithmetic in a different order are judged at 1e-12*W (W = total |weight|); "
+ASSUMPTIONS = ["equalities between two runs of the same arithmetic in a different order or batching (union, order, zero-weight points, alone / in a collection) are judged at 1e-12*W (W = total |weight|), never bit-for-bit; "
                "the birth-death / birth-persistence relation at 1e-9*W because (b+p)-b re-rounds the persistence",
                "sign / total clauses at 1e-9*W; weights judged non-negative from the oracle-side weight function",
                "schedules: only those joblib produces on this machine (loky processes, threads), perturbed by injected sleeps"]
+REQUIRED_NOTES = ["large-cases"]
 TECHNIQUE = "runtime monitoring: metamorphic-relation monitor on PersistenceImager.transform across call styles and joblib schedules, with a worker event log"
 
 
@@ -43,7 +45,39 @@ def bd(bp):
     return out
 
 
+def large_case(ctx, k, rng):
+    """the same relations on diagrams of thousands of pairs and grids of up to 160x160 pixels"""
+    geom, kkw, kdesc, wkw, wfun, bp = imgcfg.gen_large(rng)
+    ctx.begin(k, "large/" + kdesc["kind"], {"ctor": {**geom, "kernel": kdesc, "weight": {a: (b if not callable(b) else b.__name__) for a, b in wkw.items()}},
+                                            "n_pairs": len(bp), "first_pairs": bp[:5]})
+    ctx.note("large-cases")
+    try:
+        P = Imager(**geom, **kkw, **wkw)
+        U = bd(bp)
+        cut = int(rng.integers(len(U) // 4, 3 * len(U) // 4))
+        A, B = U[:cut], U[cut:]
+        ctx.ran(5)
+        ia, ib, iu = np.asarray(P.transform(A)), np.asarray(P.transform(B)), np.asarray(P.transform(U))
+        ip = np.asarray(P.transform(U[rng.permutation(len(U))]))
+        coll = P.transform([A, np.zeros((0, 2)), B, U])
+        w = np.asarray(wfun(bp[:, 0], bp[:, 1]), float)
+        W = float(np.sum(np.abs(w))) + 1e-300
+        ctx.check("image of a union == sum of images", np.max(np.abs(iu - (ia + ib))) <= 1e-12 * W, worst=float(np.max(np.abs(iu - (ia + ib)))), W=W,
+                  total_union=float(iu.sum()), total_parts=float(ia.sum() + ib.sum()))
+        ctx.check("point order irrelevant", np.max(np.abs(ip - iu)) <= 1e-12 * W, worst=float(np.max(np.abs(ip - iu))))
+        worst = max(float(np.max(np.abs(np.asarray(coll[0]) - ia))), float(np.max(np.abs(np.asarray(coll[2]) - ib))),
+                    float(np.max(np.abs(np.asarray(coll[3]) - iu))), float(np.max(np.abs(np.asarray(coll[1])))))
+        ctx.check("alone == inside a collection (in order)", len(coll) == 4 and worst <= 1e-12 * W, worst=worst, n=4, W=W)
+        ctx.check("non-negative weights => no negative pixel", float(iu.min()) >= -1e-9 * W, min_pixel=float(iu.min()), W=W)
+        ctx.check("pixel total <= total weight", float(iu.sum()) <= W * (1 + 1e-9), total=float(iu.sum()), W=W)
+        ctx.mark_nontrivial(geom, kdesc, len(bp), float(bp.sum()))
+    except Exception as e:
+        ctx.exception("transform returns", e, scenario="large")
+
+
 def run_case(ctx, k, rng):
+    if k % 131 == 17:
+        return large_case(ctx, k, rng)
     geom = imgcfg.gen_geometry(rng)
     kkw, kdesc = imgcfg.gen_kernel(rng, geom["pixel_size"])
     wkw, wfun, nonneg = imgcfg.gen_weight(rng)
@@ -103,8 +137,9 @@ def run_case(ctx, k, rng):
             ctx.set_payload({**desc, "A": A, "zero_weight_points": Z})
             ctx.ran(2)
             i1 = np.asarray(Pz.transform(A)); i2 = np.asarray(Pz.transform(np.vstack([Z[: nz // 2], A, Z[nz // 2:]])))
-            ctx.check("zero-weight points contribute nothing", np.max(np.abs(i1 - i2)) == 0.0 and bool(np.all(np.isfinite(i2))),
-                      worst=float(np.max(np.abs(i1 - i2))))
+            Wz = float(np.sum(A[:, 1] - A[:, 0])) + 1e-300 if Pz.weight_params.get("n", 1) == 1 else float(np.max(np.abs(i1)) * i1.size) + 1e-300
+            ctx.check("zero-weight points contribute nothing", np.max(np.abs(i1 - i2)) <= 1e-12 * Wz and bool(np.all(np.isfinite(i2))),
+                      worst=float(np.max(np.abs(i1 - i2))), W=Wz)
         elif scen in (7, 8):        # empty diagrams
             forms = [np.zeros((0, 2)), [], np.array([])]
             okk = True
@@ -138,7 +173,8 @@ def run_case(ctx, k, rng):
                     single = np.asarray(T(A))
                     one = np.asarray(T([A])[0]) if len(A) else single
                     worst = max(worst, float(np.max(np.abs(single - np.asarray(out[i])))), float(np.max(np.abs(single - one))))
-            ctx.check("alone == inside a collection (in order)", okk and worst == 0.0, worst=worst, n=m)
+            Wc = max([float(np.sum(np.abs(wfun(A[:, 0], A[:, 1] - A[:, 0])))) for A in coll if len(A)] + [0.0]) + 1e-300
+            ctx.check("alone == inside a collection (in order)", okk and worst <= 1e-12 * Wc, worst=worst, n=m, W=Wc)
             if m >= 3 and sum(len(a) > 0 for a in coll) >= 2:
                 ctx.mark_nontrivial(desc, coll)
         else:                        # birth-death with skew == birth-persistence without
